@@ -177,7 +177,8 @@ namespace GeographicLib {
       int i = Utility::lookup(digits_, mgrs[p]);
       if (i < 0)
         break;
-      zone1 = 10 * zone1 + i;
+      // More than 2 digits is an error (below); don't let zone1 overflow
+      if (p < 3) zone1 = 10 * zone1 + i;
       ++p;
     }
     if (p > 0 && !(zone1 >= UTMUPS::MINUTMZONE && zone1 <= UTMUPS::MAXUTMZONE))
